@@ -10,7 +10,9 @@
    - T_C08_load_invariant for std::map targets under member reordering, and for nested documents as one statement
      (proved: the member lookup of classes is independent of member positions; numeric spelling per number);
    - anything about white space / escapes / character references / encodings at load time (third-party parsers):
-     validated by the re-rendering loop; T_C08_options_passed (indent, encoding, BOM options) is observed only;
+     validated by the re-rendering loop; T_C08_options_passed covers the JSON string / stream paths of the model (the
+     XML flags and the layout the writers produce from the indent options are observed: every pretty document is checked
+     for the configured padding character and count per nesting level);
    - the XML adapter model has no theorems of its own in this file (see Properties_C01jx.v for its defects). *)
 From BS Require Import Base UtfSpec UtfModel JxJsonSpec JxJsonProofs JxXmlSpec JxXmlProofs JxModel JxProofs.
 Local Open Scope N_scope.
@@ -109,3 +111,27 @@ Theorem T_C08_load_member_order : forall i2d o fields m1 a b m2, key_eqb (fst a)
   load_json i2d o (TyObj fields) (RObj (m1 ++ a :: b :: m2)) = load_json i2d o (TyObj fields) (RObj (m1 ++ b :: a :: m2)).
 Proof. exact load_class_member_order. Qed.
 Print Assumptions T_C08_load_member_order.
+
+(* ---------------------------------------------------------------- the output options reach the writer *)
+
+(* what the JSON archive configures from the options (json_writer: Writer / PrettyWriter + SetIndent, the UTF type and BOM flag
+   of the AutoUTFOutputStream) yields, for every text, exactly what the options mean (spec_bytes: a string is UTF-8 without BOM
+   whatever the stream options say; a stream is the text in the encoding scheme named by streamOptions.encoding, preceded by
+   U+FEFF in that scheme iff writeBom), and paddingChar / paddingCharNum reach SetIndent unchanged iff enableFormat.
+   rj_put is the (third-party, validated per document) behaviour of an AutoUTFOutputStream of a given UTF type *)
+Theorem T_C08_options_passed : forall o cps,
+  rj_put (json_writer o) cps = spec_bytes o cps /\ w_indent (json_writer o) = spec_indent o.
+Proof. exact options_passed. Qed.
+Print Assumptions T_C08_options_passed.
+
+(* different encodings are never mapped to the same RapidJSON type *)
+Theorem T_C08_options_utf_injective : forall a b, to_rapid_utf a = to_rapid_utf b -> a = b.
+Proof. exact to_rapid_utf_injective. Qed.
+Print Assumptions T_C08_options_utf_injective.
+
+Example T_C08_options_example :
+  rj_put (json_writer (mkSopts true Utf16be true true 32 2)) [91; 233; 0x1F600] = [0xFE; 0xFF; 0; 91; 0; 233; 0xD8; 0x3D; 0xDE; 0] /\
+  rj_put (json_writer (mkSopts false Utf16be true false 9 1)) [91; 233] = [91; 0xC3; 0xA9] /\
+  w_indent (json_writer (mkSopts true Utf8 false true 9 3)) = Some (9, 3).
+Proof. exact options_example. Qed.
+Print Assumptions T_C08_options_example.
